@@ -248,9 +248,16 @@ def corruption_catalogue(h5, rng):
         out.append((f"feature_shape[{f}]", {f"events/{f}", "imaging:roi size x"}, c_shape,
                     rf"Mismatch \[imaging\] 'roi size x' and feature {f}"))
 
-    def c_unknown(h):
-        h["events"].create_dataset("peter", data=np.arange(n, dtype=float))
-    out.append(("unknown_feature", {"events/peter"}, c_unknown, r"Unknown key 'peter'"))
+    # a dataset in /events whose name dclab does not define: arbitrary names and names that
+    # are *nearly* valid (one character too many / too few, wrong case, undefined number)
+    unk = str(rng.choice(["peter", "peter", "ml_score_abcd", "ml_score_abc_old", "ml_score_ab",
+                          "ml_score_A1c", "area_umm", "deform2", "Deform", "userdef10",
+                          "fl4_max", "fl1_maxx", "bright_perc_5"]))
+    if unk not in ev:
+        def c_unknown(h, unk=unk):
+            h["events"].create_dataset(unk, data=np.arange(n, dtype=float))
+        out.append(("unknown_feature", {f"events/{unk}"}, c_unknown,
+                    rf"Unknown key '{re.escape(unk)}'"))
     keys = [(s, k) for s, ks in IMPORTANT.items() for k in ks]
     if "fluorescence:bit depth" in h5.attrs:
         keys += [("fluorescence", k) for k in IMPORTANT_FL]
